@@ -171,7 +171,8 @@ class C12(object):
                    'operator: probe class D13 not generated)',
                    'valuations use exactly representable values, so == is the comparison']
     required_counters = ('addterm.post_evaluated', 'termlist.judged', 'insitu.addterm.post_evaluated', 'sector.histories',
-                         'sector.rhs_replaced_mid_history')
+                         'sector.rhs_replaced_mid_history',
+                         'addterm.unsupported_form_offered')
 
     def n_cases(self, tier):
         return (15 if tier == 'quick' else 1500) + 1
@@ -247,6 +248,26 @@ class C12(object):
             if not self.judge(eq, h, expected, envs, exact, rec, j):
                 return
             if not self.judge(eq2, h, expected2, envs, exact2, rec, j, which='second equation sharing Term objects'):
+                return
+        # term texts the arithmetic does not offer (a bracketed sum or difference with a sign in front, %, //): either they are
+        # refused - and the equation is then still worth what it was - or they are added with their literal value
+        names_ = h['names']
+        a_, b_ = names_[0], names_[-1]
+        for text in ('-(%s-%s)' % (a_, b_), '(%s+%s)' % (a_, b_), '-(%s+%s)' % (b_, a_), '%s %% %s' % (a_, b_), '-(%s//%s)' % (a_, b_),
+                     '%s-%s' % (a_, b_)):
+            try:
+                eq.AddTerm(text)
+                added = True
+            except Exception:
+                added = False
+            rec.count('addterm.unsupported_form_offered')
+            if added:
+                for i, e in enumerate(envs):
+                    try:
+                        expected[i] = expected[i] + _eval(text, e)
+                    except ZeroDivisionError:
+                        return
+            if not self.judge(eq, dict(h, unsupported_term_offered=text, it_was_added=added), expected, envs, exact, rec, len(h['terms'])):
                 return
 
     def run_sector_history(self, h, rng, rec):
